@@ -24,7 +24,7 @@ class Prop:
     case_module = "CaseMut"
     case_vo = "theories/Cases/CaseMut.vo"
     run_fn = "run_mut"
-    shard = 12
+    shard = 8
     rule = ("(a) the corpus of defect witnesses (mut.CORPUS); (b) exhaustive: every ordered forest with <= N nodes (N=3 quick, 4 thorough) "
             "under three labelings (distinct strings / equal-comparing objects with distinct explicit ids / clones in different parents), "
             "plain (thorough: also typed, <= 3 nodes), and on it EVERY single operation with EVERY argument: add with before in "
@@ -71,6 +71,11 @@ class Prop:
             if not quick and g["n"] == 4:
                 # the 6^n filter tables and the set_data product stay at <= 3 nodes
                 alts = [a for a in g["alts"] if a[0] not in ("filter", "set_data", "meta")]
+            elif quick and g["n"] == 3:
+                # quick tier: every third cell of the set_data product (the thorough tier runs all of them)
+                sd = [a for a in g["alts"] if a[0] == "set_data"]
+                keep = {id(a) for i, a in enumerate(sd) if i % 3 == 0}
+                alts = [a for a in g["alts"] if a[0] != "set_data" or id(a) in keep]
             else:
                 alts = g["alts"]
             for i in range(0, len(alts), CHUNK):
@@ -79,9 +84,9 @@ class Prop:
             for g in mut.gen_exhaustive(3, typed=(True,)):
                 for i in range(0, len(g["alts"]), CHUNK):
                     yield dict(kind="alts", univ=g["univ"], setup=g["setup"], alts=g["alts"][i:i + CHUNK], label=g["label"] + "/typed")
-        nrand = 45 if quick else 600
+        nrand = 30 if quick else 600
         for i in range(nrand):
-            n_ops = rng.randint(8, 30 if quick else 40)
+            n_ops = rng.randint(8, 25 if quick else 40)
             h = (mut.gen_malformed if i % 3 == 2 else mut.gen_random)(rng, n_ops)
             yield dict(kind="hist", univ=h["univ"], ops=h["ops"])
 
